@@ -1487,6 +1487,11 @@ class CodeGenerator(NodeVisitor):
 
         const = node.as_const(frame.eval_ctx)
 
+        # The text of any other object may differ between processes (it
+        # can contain a memory address), it is produced at runtime.
+        if not has_safe_repr(const):
+            raise nodes.Impossible()
+
         if frame.eval_ctx.autoescape:
             const = escape(const)
 
